@@ -1,6 +1,8 @@
 #!/bin/bash
 # Run the thorough tier of every claimed property one after the other (background use).
 . ./env.sh
+# under `vp run --with-repo` check the repository snapshot taken with the run
+[ -n "${VP_RUN_REPO:-}" ] && export DSIM_REPO=$VP_RUN_REPO
 (cd dsim && $GO build -o ../bin/dsim ./cmd/dsim) || exit 2
 seed=${1:-23}
 for p in C01 C02 C03 C04 C07 C08 C10 C11 C12 C13 C14 C16 C19 C20 C05 C06 C09; do
